@@ -65,7 +65,13 @@ class World:
                 evs.append(EventNBBO(T(self.base, e["t"]), cs[e["c"]], float(e["bid"]), float(e["ask"])))
             else:
                 evs.append(EventContractDiscontinued(T(self.base, e["t"]), cs[e["c"]]))
-        if model["rate"] != 0:
+        if model.get("rate_path"):
+            # the reference rate as a published series of mid prices (Transmitter.add_prices)
+            import pandas as pd
+            rp = model["rate_path"]
+            tr.add_prices(pd.DataFrame({self.rate: [float(r) for _, r in rp]},
+                                       index=pd.DatetimeIndex([T(self.base, y * model["yearlen"]) for y, _ in rp])))
+        elif model["rate"] != 0:
             evs.append(EventNBBO(T(self.base, cfg["grid"][0]), self.rate, float(model["rate"]), float(model["rate"])))
         tr.add_events(evs)
         if (len(cfg["events"]) + cfg["delay"]) % 2 == 0:
